@@ -1,10 +1,21 @@
 import TabulaModel.Util
 import TabulaModel.Model.Html
+import TabulaModel.Model.HtmlSpec
 /-
 Line protocol of C19.
 
   c19.dom <mode> <tree>   →  E=<elements> X=<exclusion bits> T=<hex text> D=<document elements>
   c19.match <hex>         →  1 | 0     (class/id pattern of Standard mode)
+  c19.doc <int> <doctree> →  T=<hex text> M=<hex markdown> D=<document elements>
+                             (tree from the DOCUMENT node; raw mode value, any int)
+  c19.seq <doctree> <calls> → one digest per call, calls on ONE reader:
+                             t<int> m<int> d<int> (…WithOptions) | T M D (Text, Markdown, Document)
+  c19.ext <doctree>       →  T= M= D=   (tabula.Extractor: Text, ToMarkdown, Document)
+  c19.epub <t|m> <int> <doctree>…  →  hex of epubdoc TextWithOptions / MarkdownWithOptions
+  c19.src <int> <doctree> →  hex of squeeze (srcOf m doc): the specification's source text
+  c19.want <int> <doctree> → hex of squeeze (wantOf m doc) — the text the property asks for — or "mixed" when
+                             some p has a block-level child and non-blank text of its own (noMixed fails)
+  c19.blk <int> <doctree> →  the specification `blocksOf` (tables whole, item kinds) of the clamped mode
 
 tree  ::= 'T' hex '.'  |  'E' hex { '@' hex '=' hex } '(' tree* ')'  |  'O' '(' tree* ')'
 hex is the UTF-8 bytes of the string, two lower-case digits per byte (empty allowed).
@@ -159,6 +170,95 @@ partial def xbitsL (m : Mode) (w : Bool) (kp : Pos) : List Dom → String
   | k :: ks => xbits m w kp k ++ xbitsL m w kp ks
 end
 
+
+/-! ### the public entry points (Model/HtmlApi.lean) -/
+
+def dumpDocElM : DocEl → String
+  | .heading l t => s!"H{l}:{hexS t}"
+  | .para t => s!"P:{hexS t}"
+  | .list o items => s!"L{if o then "o" else "u"}:{",".intercalate (items.map fun i => s!"{i.1}.{hexS i.2}")}"
+  | .table rows => s!"T:{dumpRows rows}"
+
+def dumpDocM (els : List DocEl) : String := joinOrDash (els.map dumpDocElM)
+
+def utf8 (s : Str) : List UInt8 := (s.flatMap encodeCp).map UInt8.ofNat
+
+/-- FNV-1a (64 bit) of the UTF-8 bytes: the digest of the c19.seq op -/
+def fnv (bs : List UInt8) : UInt64 :=
+  bs.foldl (fun h b => (h ^^^ b.toUInt64) * 1099511628211) 14695981039346656037
+
+def digestStr (s : Str) : String :=
+  let bs := utf8 s
+  s!"{bs.length}.{(fnv bs).toNat}"
+
+def digestOut : Out → String
+  | .str s => "s" ++ digestStr s
+  | .doc els =>
+    let bs := (dumpDocM els).toUTF8.toList
+    s!"d{bs.length}.{(fnv bs).toNat}"
+
+def dumpBlock : Block → String
+  | .heading l t => s!"H{l}:{hexS t}"
+  | .para t => s!"P:{hexS t}"
+  | .item l t o => s!"I{l}{if o then "o" else "u"}:{hexS t}"
+  | .table h rows => s!"T{if h then "h" else "n"}:{dumpRows rows}"
+  | .code t => s!"C:{hexS t}"
+  | .quote t => s!"Q:{hexS t}"
+
+def parseCall (s : String) : Option Call :=
+  match s.toList with
+  | ['T'] => some .text
+  | ['M'] => some .md
+  | ['D'] => some .doc
+  | 't' :: r => (String.ofList r).toInt?.map .textOpts
+  | 'm' :: r => (String.ofList r).toInt?.map .mdOpts
+  | 'd' :: r => (String.ofList r).toInt?.map .docOpts
+  | _ => none
+
+def parseAll {α β} (f : α → Option β) : List α → Option (List β)
+  | [] => some []
+  | x :: xs => match f x, parseAll f xs with
+    | some y, some ys => some (y :: ys)
+    | _, _ => none
+
+def handleApi (op : String) (args : List String) : String :=
+  match op, args with
+  | "c19.doc", [m, tree] =>
+    match m.toInt?, parseTree tree with
+    | some m, some doc =>
+      s!"T={hexS (textWithOptions m doc)} M={hexS (markdownWithOptions m doc)} D={dumpDocM (documentWithOptions m doc)}"
+    | _, _ => "bad-op"
+  | "c19.seq", [tree, calls] =>
+    match parseTree tree, parseAll parseCall (calls.splitOn ",") with
+    | some doc, some cs => " ".intercalate ((runCalls (openReader doc) cs).map digestOut)
+    | _, _ => "bad-op"
+  | "c19.ext", [tree] =>
+    match parseTree tree with
+    | some doc =>
+      s!"T={hexS (extractorText doc)} M={hexS (extractorMarkdown doc)} D={dumpDocM (extractorDocument doc)}"
+    | none => "bad-op"
+  | "c19.epub", kind :: m :: trees =>
+    match m.toInt?, parseAll parseTree trees with
+    | some m, some docs =>
+      if kind == "t" then hexS (epubText m docs)
+      else if kind == "m" then hexS (epubMarkdown m docs)
+      else "bad-op"
+    | _, _ => "bad-op"
+  | "c19.blk", [m, tree] =>
+    match m.toInt?, parseTree tree with
+    | some m, some doc =>
+      joinOrDash ((blocksOf (if m = 0 then fun _ _ => false else excludedI m) (bodyOf doc)).map dumpBlock)
+    | _, _ => "bad-op"
+  | "c19.want", [m, tree] =>
+    match m.toInt?, parseTree tree with
+    | some m, some doc => if noMixed (bodyOf doc) then hexS (squeeze (wantOf m doc)) else "mixed"
+    | _, _ => "bad-op"
+  | "c19.src", [m, tree] =>
+    match m.toInt?, parseTree tree with
+    | some m, some doc => hexS (squeeze (srcOf m doc))
+    | _, _ => "bad-op"
+  | _, _ => "bad-op"
+
 def handle (op : String) (args : List String) : String :=
   match op, args with
   | "c19.dom", [mode, tree] =>
@@ -174,6 +274,6 @@ def handle (op : String) (args : List String) : String :=
       let s := decodeUtf8 (bs.map (·.toNat)) []
       if excludedPattern vocabExcluded [(A.class, s)] then "1" else "0"
     | none => "bad-op"
-  | _, _ => "bad-op"
+  | _, _ => handleApi op args
 
 end Tabula.C19H
